@@ -185,14 +185,44 @@ Proof.
 Qed.
 Print Assumptions c14_conc_in_grace_at_snapshot_never_selected.
 
+(* (b) AT FULL STRENGTH (the code since "fix: connmgr: re-check the grace
+   period in the trim's selection loop"): no connection of a peer that is inside
+   its grace period at the moment it is selected is ever selected, hence closed,
+   whatever the schedule - this covers the early-tagged candidate whose first
+   Connected lands between the snapshot and the selection loop.
+   Step form: in ANY state, an iteration of the selection loop adds to the
+   selection only connections of a peer whose firstSeen, read in that very
+   critical section, is not after gracePeriodStart ... *)
+Theorem c14_conc_selection_rechecks_grace : forall cfg cs cs' evs,
+  cstep cfg cs ASelect = Some (cs', evs) ->
+  forall x, In x (cs_sel cs') -> In x (cs_sel cs) \/ p_first (peer_at (cs_s cs) (fst x)) <= cs_gstart cs.
+Proof. exact select_step_rechecks. Qed.
+Print Assumptions c14_conc_selection_rechecks_grace.
+
+(* ... and gracePeriodStart never overtakes the clock (so "firstSeen <=
+   gracePeriodStart" means "grace period over NOW", at every later moment of the
+   trim), and a selected connection whose candidate is still the same peer entry
+   belongs, in every state of every schedule up to the close, to a peer that is
+   not temp and whose firstSeen is not after gracePeriodStart *)
+Theorem c14_conc_selected_peer_out_of_grace_every_schedule : forall cfg sched, 0 <= c_low cfg ->
+  let cs := fst (crun cfg (cinit cfg) sched) in
+  (is_idle (cs_ph cs) = false -> cs_gstart cs <= now (cs_s cs) - c_grace cfg)
+  /\ forall p c e, In (p, c) (cs_sel cs) -> In e (cs_cands cs) -> ce_p e = p -> ce_live e = true ->
+       p_temp (peer_at (cs_s cs) p) = false /\ p_first (peer_at (cs_s cs) p) <= cs_gstart cs.
+Proof.
+  intros cfg sched Hlow cs. pose proof (cinv_run cfg sched (cinit cfg) Hlow (cinv_init cfg)) as H. fold cs in H.
+  split; [exact (ci_clock _ _ H)|exact (ci_self _ _ H)].
+Qed.
+Print Assumptions c14_conc_selected_peer_out_of_grace_every_schedule.
+
 (* (c) when the trim is about to close its selection, the connections left on
-   its live candidates number at most low + the connections that Connected
+   its live candidates that are still out of grace number at most low + the connections that Connected
    added to a live candidate after its snapshot (ghost counters); with no such
    Connected the bound is low *)
 Theorem c14_conc_left_at_most_low_plus_added : forall cfg sched, 0 <= c_low cfg ->
   let cs := fst (crun cfg (cinit cfg) sched) in
   cs_ph cs = TClose ->
-  phi (cs_s cs) (cs_sel cs) (cs_cands cs) <= c_low cfg + cs_added1 cs + cs_added2 cs.
+  phi (cs_s cs) (cs_gstart cs) (cs_sel cs) (cs_cands cs) <= c_low cfg + cs_added1 cs + cs_added2 cs.
 Proof.
   intros cfg sched Hlow cs E. exact (phi_at_close cfg cs (cinv_run cfg sched (cinit cfg) Hlow (cinv_init cfg)) E).
 Qed.
@@ -235,32 +265,40 @@ Theorem c14_conc_monitor_accepts_every_schedule : forall cfg sched, 0 <= c_low c
 Proof. exact cmon_accepts_l. Qed.
 Print Assumptions c14_conc_monitor_accepts_every_schedule.
 
-(* WITNESS 1 (clause (b) cannot be strengthened to "no connection of a peer
-   that is inside its grace period when it is closed"): peer 0 was tagged early
-   (temporary entry, firstSeen 0) and is out of grace at time 5, so the trim
-   snapshots it as a candidate; its Connected arrives between the snapshot and
-   the selection loop, clears temp and restarts the grace period (firstSeen 5);
-   the selection loop reads the entry's LIVE connection set and the trim
-   closes the brand-new connection (0,7) although firstSeen = now. *)
+(* NON-VACUITY of the strengthened (b): with the selection loop as it was
+   BEFORE the fix (Conc.select_step false) the schedule below violates it.  Peer
+   0 was tagged early (temporary entry, firstSeen 0) and is out of grace at time
+   5, so the trim snapshots it as a candidate; its Connected arrives between
+   the snapshot and the selection loop, clears temp and restarts the grace
+   period (firstSeen 5); the old loop reads the entry's LIVE connection set
+   and the trim closes the brand-new connection (0,7) although firstSeen = now.
+   The repaired loop skips the entry and closes the other candidate instead.
+   (This was the defect; the same schedule is a fixed corpus case of the
+   harness, replayed on the implementation through the hook in the sort.) *)
 Definition w1_cfg := mkCfg 1 3 5 1 [].
 Definition w1_sched : list act :=
   [AOp (TagPeer 0 0 1); AOp (Connected 1 0); AOp (Connected 2 0);
    AClock; AClock; AClock; AClock; AClock;
    ABegin; ASnap 0; ASnap 1; ASnap 2; ASnapEnd; ASortEnd [0; 1; 2]%nat;
    AOp (Connected 0 7);
-   ASelect; ASelect; AFinish].
-Theorem c14_conc_fresh_grace_closed_witness :
-  let r := crun w1_cfg (cinit w1_cfg) w1_sched in
+   ASelect; ASelect; ASelect; AFinish].
+Theorem c14_conc_old_selection_loop_closed_inside_fresh_grace :
+  let r := crun_old w1_cfg (cinit w1_cfg) w1_sched in
   let s := cs_s (fst r) in
   In (EClosed [(0%nat, 7%nat)]) (snd r)
   /\ now s = 5 /\ p_first (peer_at s 0) = 5 /\ now s - c_grace w1_cfg < p_first (peer_at s 0).
 Proof. vm_compute. repeat split; auto 30. Qed.
-Print Assumptions c14_conc_fresh_grace_closed_witness.
+Print Assumptions c14_conc_old_selection_loop_closed_inside_fresh_grace.
 
-(* WITNESS 2 (the literal "after a trim with no concurrent Connected at most
+Theorem c14_conc_repaired_selection_loop_on_the_same_schedule :
+  In (EClosed [(1%nat, 0%nat)]) (snd (crun w1_cfg (cinit w1_cfg) w1_sched)).
+Proof. vm_compute. auto 30. Qed.
+Print Assumptions c14_conc_repaired_selection_loop_on_the_same_schedule.
+
+(* NOT A DEFECT (the eligible set itself changes concurrently): the literal "after a trim with no concurrent Connected at most
    low open, unprotected, out-of-grace connections remain" is false when an
    Unprotect - or a clock advance - races with the trim; the true statement is
-   c14_conc_left_at_most_low_plus_added, about the trim's candidates): peer 3
+   c14_conc_left_at_most_low_plus_added, about the trim's candidates.  Peer 3
    is protected while snapshotted and unprotected before the trim finishes; no
    Connected happens; the trim closes (1,0) and two eligible connections are
    left with low = 1. *)
@@ -398,4 +436,12 @@ Proof. eexists. vm_compute. reflexivity. Qed.
 
 Example cmon_rejects_torn_value :
   cm_events (mkCfg 1 3 0 1 []) [EOp (TagPeer 0 0 4); EOp (TagPeer 0 1 3); ERead 0 4] = inr [ERR_PROPERTY; 2; 36].
+Proof. vm_compute. reflexivity. Qed.
+
+(* ... and a closed connection of a candidate whose grace period restarted
+   after its snapshot (37): the regression the corpus case guards against *)
+Example cmon_rejects_closed_inside_fresh_grace :
+  cm_events (mkCfg 1 3 5 1 [])
+    [EOp (TagPeer 0 0 1); EOp (Connected 1 0); EOp (Connected 2 0); EOp (Advance 5); ETrimBegin; ESnap 0; ESnap 1; ESnap 2;
+     ESnapEnd; EOp (Connected 0 7); EClosed [(0%nat, 7%nat)]] = inr [ERR_PROPERTY; 10; 37].
 Proof. vm_compute. reflexivity. Qed.
